@@ -495,3 +495,83 @@ func kindName(m *refwire.Msg) string {
 	}
 	return refwire.KindName[m.Kind]
 }
+
+// ---- (c) real server dispatching to a Session whose own Version() reports less than what
+// is negotiated on the wire (a custom session, or a proxy SSession(CSession(upstream)) whose
+// upstream connection carries less).  What the server answered in its Rversion is the msize
+// both ends honour: a request frame of exactly that size must still be served.
+
+type smallSession struct {
+	markerSession
+	msize int
+}
+
+func (s *smallSession) Version() (int, string) { return s.msize, p9p.DefaultVersion }
+
+type SessNegCase struct {
+	Propose    uint32
+	SessMSize  int
+	Rendezvous bool
+}
+
+func GenSessNeg(t *rapid.T) SessNegCase {
+	c := SessNegCase{Rendezvous: rapid.Bool().Draw(t, "rendezvous")}
+	c.Propose = rapid.OneOf(rapid.SampledFrom([]uint32{4096, 8192, 65535, 65536, 65537, 1 << 20}), rapid.Uint32Range(600, 70000)).Draw(t, "propose")
+	c.SessMSize = rapid.OneOf(rapid.SampledFrom([]int{0, 24, 256, 4096, 8192}), rapid.IntRange(24, 70000)).Draw(t, "sessmsize")
+	return c
+}
+
+func RunSessNeg(c SessNegCase) harn.Result {
+	a, b := memconn.NewPair(memconn.Options{Rendezvous: c.Rendezvous})
+	defer a.Close()
+	defer b.Close()
+	ctx, cancel := context.WithCancel(context.Background())
+	defer cancel()
+	ms := &smallSession{msize: c.SessMSize}
+	go p9p.ServeConn(ctx, b, p9p.SSession(ms))
+	p := peer.New(a)
+	fail := func(format string, x ...any) harn.Result {
+		return harn.Fail("%s [client proposes msize %d, the served session's own Version() says %d]", fmt.Sprintf(format, x...), c.Propose, c.SessMSize)
+	}
+	rv, err := p.Handshake(c.Propose, bound)
+	if err != nil {
+		return fail("handshake failed: %v", err)
+	}
+	agreed := rv.MSize
+	if agreed > c.Propose {
+		return fail("server answered msize %d to a proposal of %d", agreed, c.Propose)
+	}
+	res := harn.Result{NonTrivial: int(agreed) > c.SessMSize, Classes: []string{"served_session"}}
+	if res.NonTrivial {
+		res.Classes = append(res.Classes, "session_msize_below_agreed")
+	}
+	// a Twrite frame of exactly the agreed size, then one just above the session's own msize
+	sizes := []int{int(agreed) - 23}
+	if c.SessMSize+1-23 > 0 && c.SessMSize+1 <= int(agreed) {
+		sizes = append(sizes, c.SessMSize+1-23)
+	}
+	for i, n := range sizes {
+		fid := uint32(8 + i) // markerSession: fid%7 != 3, so no marker error
+		data := make([]byte, n)
+		for x := range data {
+			data[x] = byte(int(fid)*3 + x)
+		}
+		tag := uint16(1 + i)
+		p.Send(&refwire.Msg{Kind: refwire.Twrite, Tag: tag, Fid: fid, Offset: 0, Data: harn.B(data)})
+		rf, ok, rerr := p.Next(bound)
+		if !ok || rf.Msg == nil {
+			return fail("no reply to a Twrite frame of %d bytes (agreed msize %d): %v", n+23, agreed, rerr)
+		}
+		if rf.Msg.Kind != refwire.Rwrite || rf.Msg.Tag != tag || int(rf.Msg.Count) != n {
+			return fail("a Twrite frame of %d bytes (agreed msize %d) was answered with %s, want Rwrite count %d", n+23, agreed, brief10(rf.Msg), n)
+		}
+	}
+	return res
+}
+
+func brief10(m *refwire.Msg) string {
+	if m.Kind == refwire.Rerror {
+		return fmt.Sprintf("Rerror(%q)", string(m.Ename))
+	}
+	return fmt.Sprintf("%s count=%d tag=%d", kindName(m), m.Count, m.Tag)
+}
